@@ -1050,6 +1050,10 @@ impl GraphDatabase {
 
         self.data_model.update_system(SYSTEM_DATA_MODEL)?;
         self.data_model.update(model)?;
+        //a parsed request keeps what it read in the model it was parsed with (the full text flag of its entities)
+        self.mutation_cache.clear();
+        self.query_cache.clear();
+        self.deletion_cache.clear();
 
         let str = serde_json::to_string(&self.data_model)?;
 
